@@ -91,12 +91,72 @@ impl TextStats {
     }
 }
 
+/// A writer that gives up after a byte budget: formatting into it fails midway.
+pub struct BudgetWriter {
+    pub left: usize,
+}
+
+impl std::fmt::Write for BudgetWriter {
+    fn write_str(&mut self, s: &str) -> std::fmt::Result {
+        if s.len() > self.left {
+            self.left = 0;
+            return Err(std::fmt::Error);
+        }
+        self.left -= s.len();
+        Ok(())
+    }
+}
+
+/// Formats an unrelated range into a writer that fails midway (on this thread). Whatever the
+/// formatter keeps between calls must not leak into the next text.
+pub fn interrupted_write(budget: usize) {
+    use std::fmt::Write;
+    let poison: Content = [((20u8, 25u8), 0.123_456_7f32), ((33, 47), 0.123_456_7), ((2, 50), 0.765_432_1), ((8, 9), 1.0), ((8, 10), 1.0)].into_iter().collect();
+    let range = to_range(&poison);
+    let mut w = BudgetWriter { left: budget };
+    let _ = catch(|| write!(&mut w, "{}", range));
+}
+
+/// Weights whose shortest decimal print does not survive a detour through f64 (parse as f64, narrow
+/// to f32): found by a sweep over every f32 in (0,1] that uses only std, then fed to the real round trip.
+pub fn double_rounding_sensitive_weights() -> Vec<f32> {
+    let total: u32 = 0x3f80_0000;
+    let chunk: u32 = 1 << 16;
+    let n_chunks = (total / chunk) as usize + 1;
+    let found = par_run(
+        n_chunks,
+        4,
+        |_| Vec::<f32>::new(),
+        |acc, c| {
+            let lo = (c as u32) * chunk;
+            let hi = (lo.saturating_add(chunk)).min(total + 1);
+            let mut buf = String::with_capacity(64);
+            for bits in lo.max(1)..hi {
+                let x = f32::from_bits(bits);
+                buf.clear();
+                use std::fmt::Write;
+                let _ = write!(&mut buf, "{}", x);
+                if let Ok(d) = buf.parse::<f64>() {
+                    if (d as f32).to_bits() != bits {
+                        acc.push(x);
+                    }
+                }
+            }
+        },
+    );
+    found.into_iter().flatten().collect()
+}
+
 /// format -> parse for one range content.
 pub fn check_content(content: &Content, label: &str, report: &mut Report, stats: &mut TextStats) {
     report.evaluations += 1;
     let case = || content_json("roundtrip", content);
     let sig = |kind: &str| format!("{}:{}:{:016x}", kind, label, content_hash(content));
     let range = to_range(content);
+    if report.evaluations % 8 == 0 {
+        interrupted_write((report.evaluations as usize / 8) % 40);
+        report.count("texts_formatted_after_an_interrupted_write", 1);
+    }
     let text = match catch(|| range.to_string()) {
         Ok(t) => t,
         Err(p) => {
@@ -333,8 +393,30 @@ pub fn pattern_jobs(windows: bool, full_rows: bool, sampled_per_row: u32, offsui
     jobs
 }
 
+/// The committed list of double-rounding-sensitive weights (`harness/data/double_rounding_sensitive_f32.txt`,
+/// one hex bit pattern per line). The thorough tier recomputes it and is inconclusive if it differs.
+fn sensitive_weights_from_file() -> Vec<f32> {
+    let text = include_str!("../../data/double_rounding_sensitive_f32.txt");
+    text.lines()
+        .filter(|l| !l.starts_with('#') && !l.trim().is_empty())
+        .filter_map(|l| u32::from_str_radix(l.trim().trim_start_matches("0x"), 16).ok())
+        .map(f32::from_bits)
+        .collect()
+}
+
 pub fn run(ctx: &Ctx) -> Report {
     let thorough = ctx.tier == Tier::Thorough;
+    let mut sensitive = sensitive_weights_from_file();
+    let mut sweep_note: Option<String> = None;
+    if thorough {
+        let swept = double_rounding_sensitive_weights();
+        let a: Vec<u32> = swept.iter().map(|w| w.to_bits()).collect();
+        let b: Vec<u32> = sensitive.iter().map(|w| w.to_bits()).collect();
+        if a != b {
+            sweep_note = Some(format!("the sweep over all f32 in (0,1] finds the sensitive weights {:x?}, the committed list holds {:x?}", a, b));
+        }
+        sensitive = swept;
+    }
     let mut jobs = pattern_jobs(true, thorough, ctx.tier.pick(400, 0), ctx.tier.pick(8, 78), ctx.tier.pick(120, 1200), ctx.seed);
     let tokens = all_well_formed_tokens();
     let mut lo = 0;
@@ -386,6 +468,19 @@ pub fn run(ctx: &Ctx) -> Report {
     for (r, s) in results {
         report.merge(r);
         stats.merge(&s);
+    }
+    // weights whose shortest print is one rounding step away from trouble: every token kind and ranges
+    for w in &sensitive {
+        for t in [Tok::Pocket(3), Tok::PocketPlus(5), Tok::SuitedSpan(0, 3, 7), Tok::OffsuitPlus(2, 9), Tok::Combo(0, 51), Tok::Suited(4, 5)] {
+            check_token(&t, *w, &mut report);
+        }
+        let mut c = content_from_cells(&row(0, 0), &[1, 1, 0, 2, 0, 0, 0, 0, 0, 0, 0, 0, 1], *w, 0.5);
+        c.insert((1, 6), *w);
+        check_content(&c, "sensitive-weight", &mut report, &mut stats);
+        report.count("double_rounding_sensitive_weights_tried", 1);
+    }
+    if let Some(n) = sweep_note {
+        report.inconclusive(n);
     }
     stats.put(&mut report);
     report.set("well_formed_tokens", Json::Int(tokens.len() as i128));
